@@ -164,13 +164,30 @@ back-ups commute) -/
 def allDefs (s : St) (objs : List Nat) : List Nat :=
   dedupAdj ((objs.flatMap s.defs).mergeSort (fun a b => decide (a ≤ b)))
 
+/-- `for paramDef in paramDefs: paramDef.backUp()` over the SET of definitions `D`: the per-definition
+updates (`Parameter.backUp`, see `backUpDef`) touch distinct definitions and commute, so the loop is
+written as one simultaneous update -/
+def backUpDefs (s : St) (D : List Nat) : St :=
+  { s with dbackup := fun d => if D.contains d then s.dassigned d :: s.dbackup d else s.dbackup d }
+
+/-- `for paramDef in paramDefs: paramDef.restoreBackup(paramsToApply)` (see `restoreDef`) -/
+def restoreDefs (keep : List Nat) (s : St) (D : List Nat) : St :=
+  { s with
+    dbackup := fun d => if D.contains d then (s.dbackup d).tail else s.dbackup d
+    dassigned := fun d =>
+      if D.contains d && !(keep.contains d) then
+        (match s.dbackup d with
+          | [] => s.dassigned d
+          | a :: _ => a)
+      else s.dassigned d }
+
 /-- `StateRetainer.__enter__`: every object of the subtree, then every definition once -/
 def enter (s : St) (objs : List Nat) : St :=
-  (allDefs s objs).foldl backUpDef (objs.foldl backUpObj s)
+  backUpDefs (objs.foldl backUpObj s) (allDefs s objs)
 
 /-- `StateRetainer.__exit__` -/
 def exit (s : St) (objs keep : List Nat) : St :=
-  (allDefs s objs).foldl (restoreDef keep) (objs.foldl (restoreObj keep) s)
+  restoreDefs keep (objs.foldl (restoreObj keep) s) (allDefs s objs)
 
 /-- `copy.deepcopy(obj)`: `ParameterCollection.__deepcopy__` builds a NEW collection from the copied
 state: same values and back-up chain, a fresh serial number (assigned through the setter, so the
